@@ -10,6 +10,7 @@
   lexicographic order of core `List` (`<` on `List Int`).
 -/
 import Batchie.Lemmas.UnrankRank
+import Batchie.Lemmas.UnrankCallsite
 
 namespace Batchie.Props.C15
 
@@ -155,6 +156,85 @@ theorem C15_triples (n : Nat) :
   · intro p hp
     exact (hp.map _).trans ((List.perm_ext_iff_of_nodup hnodup (nodup_allTriples n)).2 hmem)
 
+/-! ### the call site inside `dbal_fast_gauss_scoring_vectorized` (`Model/UnrankCallsite.lean`) -/
+
+section callsite
+open Batchie.UnrankCallsite
+
+/-- the triples of the call-site model are the unranked tuples seen through `toTriple` -/
+theorem triplesOf_eq (n : Nat) (choice : List Nat) :
+    triplesOf n choice = (choice.map (fun idx => out idx n 3)).map toTriple := by
+  simp only [triplesOf, List.map_map]
+  rfl
+
+/-- What the kernel passes to `rng.choice` is `(C(n,3), min(C(n,3), max_combos))`: the population
+    is exactly the set of valid indices, so under numpy's contract no index `≥ C(n,3)` is ever
+    unranked -- for EVERY budget, also one far beyond `C(n,3)`. -/
+theorem C15_callsite_population (n maxCombos : Nat) (choice : List Nat)
+    (hc : ChoiceContract (comb3 n) (nCombos n maxCombos) choice) :
+    comb3 n = n.choose 3 ∧ nCombos n maxCombos = min (n.choose 3) maxCombos ∧
+    ∀ idx ∈ choice, idx < n.choose 3 ∧
+      (run (idx : Int) (n : Int) 3).err = false ∧ (run (idx : Int) (n : Int) 3).oof = false := by
+  refine ⟨comb3_eq n, by simp [nCombos, comb3_eq], ?_⟩
+  intro idx hidx
+  have h : idx < n.choose 3 := by have := hc.2.1 idx hidx; rwa [comb3_eq] at this
+  exact ⟨h, C15_no_error idx n 3 h⟩
+
+/-- THE TRIPLES ACTUALLY USED FOR SCORING.  For every number of posterior samples `n`, every budget
+    `maxCombos` (smaller than, equal to or larger than `C(n,3)`) and every draw `choice` satisfying
+    numpy's contract for `rng.choice(C(n,3), size=min(C(n,3), maxCombos), replace=False)`:
+    the kernel uses exactly `min(C(n,3), maxCombos)` triples, they are pairwise distinct, each is
+    `n > i > j > l` (in range), and when the budget covers `C(n,3)` they are a permutation of ALL
+    triples -- in the vocabulary of the C05 model (`Dbal.allTriples`), i.e. this is the hypothesis
+    `hall` of `C05_batchsize_invariant`. -/
+theorem C15_callsite (n maxCombos : Nat) (choice : List Nat)
+    (hc : ChoiceContract (comb3 n) (nCombos n maxCombos) choice) :
+    (triplesOf n choice).length = min (n.choose 3) maxCombos ∧
+    (triplesOf n choice).Nodup ∧
+    (∀ t ∈ triplesOf n choice, t.2.2 < t.2.1 ∧ t.2.1 < t.1 ∧ t.1 < n) ∧
+    (n.choose 3 ≤ maxCombos → (triplesOf n choice).Perm (Batchie.Dbal.allTriples n)) := by
+  obtain ⟨hnd, hlt, hlen⟩ := hc
+  have hlt' : ∀ idx ∈ choice, idx < n.choose 3 := by
+    intro idx h; have := hlt idx h; rwa [comb3_eq] at this
+  have key := (C15_triples n).1
+  have hcast : ∀ idx ∈ choice, ∃ i j l : Nat, out idx n 3 = [(i : Int), (j : Int), (l : Int)] ∧
+      toTriple (out idx n 3) = (i, j, l) ∧ l < j ∧ j < i ∧ i < n := by
+    intro idx h
+    obtain ⟨i, j, l, ho, h1, h2, h3⟩ := key idx (hlt' idx h)
+    exact ⟨i, j, l, ho, by rw [ho, toTriple_cast], h1, h2, h3⟩
+  refine ⟨?_, ?_, ?_, ?_⟩
+  · simp [triplesOf, hlen, nCombos, comb3_eq]
+  · rw [triplesOf_eq, List.map_map]
+    refine List.Nodup.map_on ?_ hnd
+    intro a ha b hb he
+    obtain ⟨i, j, l, hoa, hta, -⟩ := hcast a ha
+    obtain ⟨i', j', l', hob, htb, -⟩ := hcast b hb
+    simp only [Function.comp] at he
+    rw [hta, htb] at he
+    have : out a n 3 = out b n 3 := by
+      rw [hoa, hob]
+      simp only [Prod.mk.injEq] at he
+      obtain ⟨rfl, rfl, rfl⟩ := he
+      rfl
+    exact C15_injective a b n 3 (hlt' a ha) (hlt' b hb) this
+  · intro t ht
+    rw [triplesOf_eq, List.map_map] at ht
+    obtain ⟨idx, hidx, rfl⟩ := List.mem_map.1 ht
+    obtain ⟨i, j, l, -, hta, h1, h2, h3⟩ := hcast idx hidx
+    simp only [Function.comp]
+    rw [hta]
+    exact ⟨h1, h2, h3⟩
+  · intro hle
+    have hN : nCombos n maxCombos = comb3 n := by
+      simp only [nCombos, comb3_eq]; exact Nat.min_eq_left hle
+    have hp : choice.Perm (List.range (n.choose 3)) := by
+      have := perm_range_of_contract (N := comb3 n) (choice := choice) ⟨hnd, hlt, by rw [hlen, hN]⟩
+      rwa [comb3_eq] at this
+    rw [triplesOf_eq, ← map_toTriple_allTriples]
+    exact ((C15_triples n).2.2 choice hp).map toTriple
+
+end callsite
+
 /-! ### non-vacuity: the hypotheses are satisfiable and the definitions compute -/
 
 -- the production regime (index 1000000007 of C(3000,3) = 4 495 501 000), evaluated by the kernel
@@ -179,5 +259,17 @@ example : allTriples 4 = [[2,1,0],[3,1,0],[3,2,0],[3,2,1]] := by decide +kernel
 -- (injectivity fails), and with `k > n` a negative entry and a division by zero appear
 example : (run 10 5 2).out = [4, 3] ∧ (run 9 5 2).out = [4, 3] := by decide +kernel
 example : (run 0 2 3).out = [1, 0, -1] ∧ (run 0 2 3).err = true := by decide +kernel
+
+-- the call-site contract is satisfiable in all three regimes (budget <, =, > C(5,3) = 10), and the
+-- model computes the triples the code uses
+example : Batchie.UnrankCallsite.ChoiceContract (Batchie.UnrankCallsite.comb3 5)
+    (Batchie.UnrankCallsite.nCombos 5 4) [7, 0, 9, 3] := by decide
+example : Batchie.UnrankCallsite.ChoiceContract (Batchie.UnrankCallsite.comb3 5)
+    (Batchie.UnrankCallsite.nCombos 5 10) [7, 0, 9, 3, 1, 2, 8, 4, 6, 5] := by decide
+example : Batchie.UnrankCallsite.ChoiceContract (Batchie.UnrankCallsite.comb3 5)
+    (Batchie.UnrankCallsite.nCombos 5 5000) [7, 0, 9, 3, 1, 2, 8, 4, 6, 5] := by decide
+example : Batchie.UnrankCallsite.triplesOf 5 [7, 0, 9, 3] = [(4, 3, 0), (2, 1, 0), (4, 3, 2), (3, 2, 1)] := by
+  decide +kernel
+example : Batchie.UnrankCallsite.comb3 3000 = 4495501000 := by decide +kernel
 
 end Batchie.Props.C15
